@@ -181,3 +181,7 @@ Section Guards.
     forallb g_line lines && forallb tok0_ok (atoms_of (flat_map line_recs lines)).
 
 End Guards.
+
+(* serial numbers of the atoms of a result, in Biomolecule order *)
+Definition serials_of (r : result) : list Z :=
+  match r with Done rs => map a_serial (all_atoms rs) | Raised _ => [] end.
